@@ -166,6 +166,9 @@ def render(prog, bad=(), uid=0, seed=0, edits=None, orig=None, poison=()):
             p = par[p]
         return bool(p) and prog[p - 1]["k"] == "class"
 
+    def own_import(j):
+        return any(prog[c - 1]["k"] == "import" or (prog[c - 1]["k"] == "block" and own_import(c)) for c in kids[j])
+
     def form_of(i):
         n = prog[i - 1]
         return FORMS[(i + seed) % len(FORMS)] if n["ann"] else "none"
@@ -203,6 +206,9 @@ def render(prog, bad=(), uid=0, seed=0, edits=None, orig=None, poison=()):
                    "kwonly": f"({slf}*, a: {h})", "posonly": f"(a: {h}, /)" if not slf else f"(self, a: {h}, /)",
                    "vararg": f"({slf}*a: {h})", "kwarg": f"({slf}**a: {h})"}[form]
             out(f"{ind}{'async ' if n['asy'] else ''}def f{i}{sig}:", node=i)
+            if own_import(i):
+                # the hostile import would make the name local to the whole function body
+                out(f"{ind}    global hostile", aux=i)
             for c in kids[i]:
                 emit(c, ind + "    ")
             if form == "ret":
@@ -698,7 +704,7 @@ def intended_of(tier):
     """Bounds of the intended-design runs (self-consistency of the spec: Walk = Rule etc.)."""
     if tier == "quick":
         return {"scope": (4, 4), "kinds": (2, 3), "deco": (3, 3), "prefix": (4, 2)}
-    return slices_of(tier)
+    return dict(slices_of(tier), scope=(5, 4))
 
 
 def rows_of(res):
@@ -854,7 +860,8 @@ def do_shape(rep, rows, finds, pool, sel=None):
     idx = list(range(len(rows))) if sel is None else sel
     n = len(idx)
     step = max(1, min(400, n // 64 + 1))
-    chunks = [(_SEED, [(ri, rows[ri]) for ri in idx[a:a + step]]) for a in range(0, n, step)]
+    chunks = [(_SEED, [(ri, {"prog": rows[ri]["prog"], "conf": rows[ri]["conf"]}) for ri in idx[a:a + step]])
+              for a in range(0, n, step)]
     res = pool.map(_shape_chunk, chunks, chunksize=1) if pool else [_shape_chunk(c) for c in chunks]
     agree = 0
     for chunk in res:
